@@ -32,7 +32,7 @@ set_option linter.unusedSectionVars false
 namespace BHS.Props.C05
 open BHS BHS.Chain
 open BHS.Props.C01 (IsRoot HashAvoids exCfg exRoot exSrc exHist exStore exNext exStore_eq exAvoids C01_inv_init
-  C01_canonical_partial)
+  C01_canonical exZero)
 variable {H : Type} [DecidableEq H]
 
 /-! ### the concrete crash scenario used by the examples -/
@@ -158,13 +158,13 @@ example : exRoot ∈ exStore ∧ Inv exCfg exStore ∧ nWrites exCfg exStore exN
 
 /-! ### redelivery of the whole history -/
 
-/-- the store built from the root row by a history of positive-work headers is interrupted at write boundary `k`
-    of the next submission `x` (ANY header, also a zero-work one); after the restart the peers deliver the WHOLE
+/-- the store built from the root row by ANY history (zero-work headers included) is interrupted at write boundary
+    `k` of the next submission `x` (ANY header); after the restart the peers deliver the WHOLE
     history again, `x` last: the final store is exactly the one of the uninterrupted run -/
 theorem C05_redeliver_history (cfg : Cfg H) (g : Row H) (hg : IsRoot g) (hz : HashAvoids cfg g.prev)
-    (hist : List (Src H)) (hpos : ∀ y ∈ hist, 0 < work y.bits) (x : Src H) (k : Nat) :
+    (hist : List (Src H)) (x : Src H) (k : Nat) :
     run cfg (restart g (addPrefix cfg (run cfg [g] hist) x k)) (hist ++ [x]) = run cfg [g] (hist ++ [x]) := by
-  have hinv := (C01_canonical_partial cfg g hg hz hist hpos).1
+  have hinv := (C01_canonical cfg g hg hz hist).1
   have hw0 := (C01_inv_init cfg g hg).1
   have hg1 : g ∈ [g] := List.mem_singleton.2 rfl
   have hgs : g ∈ run cfg [g] hist := by
@@ -183,12 +183,20 @@ theorem C05_redeliver_history (cfg : Cfg H) (g : Row H) (hg : IsRoot g) (hz : Ha
   rw [run_snoc, run_snoc, run_of_known hist _ hknown]
   exact C05_redeliver_exact cfg (run cfg [g] hist) x g hgs hinv k
 
-example : IsRoot exRoot ∧ HashAvoids exCfg exRoot.prev ∧ (∀ y ∈ exHist, 0 < work y.bits) ∧
+example : IsRoot exRoot ∧ HashAvoids exCfg exRoot.prev ∧
     nWrites exCfg (run exCfg [exRoot] exHist) exNext = 3 :=
-  ⟨by decide, exAvoids, by decide, by decide⟩
+  ⟨by decide, exAvoids, by decide⟩
 
 example : run exCfg (restart exRoot (addPrefix exCfg (run exCfg [exRoot] exHist) exNext 1)) (exHist ++ [exNext]) =
     run exCfg [exRoot] (exHist ++ [exNext]) := by decide
+
+/-- the same with a zero-work header on the tip inside the history (it stays STALE; the later reorganisation by
+    `exNext` is interrupted after its first update) -/
+example : (∃ y ∈ exHist ++ [exZero], work y.bits = 0) ∧
+    nWrites exCfg (run exCfg [exRoot] (exHist ++ [exZero])) exNext = 3 ∧
+    run exCfg (restart exRoot (addPrefix exCfg (run exCfg [exRoot] (exHist ++ [exZero])) exNext 1))
+        ((exHist ++ [exZero]) ++ [exNext]) =
+      run exCfg [exRoot] ((exHist ++ [exZero]) ++ [exNext]) := by decide
 
 /-! ### acknowledged headers survive -/
 
